@@ -55,8 +55,13 @@ def spec():
         "Loose": {"type": "object", "required": ["id"], "properties": {
             "id": {"type": "integer"}, "at": {"type": "string", "format": "time"}, "meta": {"type": "object"}, "payload": {},
             "rows": {"type": "array", "items": {"type": "object"}}, "note": {"description": "anything goes"},
+            # `allOf: [{$ref}]` + annotations: the OpenAPI 3.0 idiom for a nullable / described reference (here to enums)
+            "state": {"allOf": [{"$ref": "#/components/schemas/Status"}], "nullable": True},
+            "rank": {"allOf": [{"$ref": "#/components/schemas/Level"}], "description": "described reference"},
             # arrays whose ITEMS may be null
             "slots": {"type": "array", "items": {"type": "string", "nullable": True}}, "counts": {"type": "array", "items": {"type": "integer", "nullable": True}}}},
+        # declared properties AND additionalProperties: the extra keys are admitted by the schema
+        "Mixed": {"type": "object", "required": ["id"], "properties": {"id": {"type": "integer"}}, "additionalProperties": {"type": "integer"}},
         "Tree": {"type": "object", "required": ["label"], "properties": {"label": {"type": "string"}, "kids": {"type": "array", "items": {"$ref": "#/components/schemas/Tree"}}}},
     }
     ok = {"description": "ok", "content": {"application/json": {"schema": {"$ref": "#/components/schemas/Person"}}}}
